@@ -285,7 +285,8 @@ def check_with(case, driver):
                     r.label("cli-object-reused-after-successful-command")
                     f0 = [a for a in argv_in if not a.startswith("-")][-1]
                     if not any(ch in f0 for ch in "*?"):
-                        prior = ["-m", "Earlier", f0, "--merge", "percent_1", "number_1", "-f", "attrs", "--max-strings-literals", "1"] + \
+                        pname = case["specs"][0]["model"] if len(f0) % 2 else "Earlier"     # same model name in half of the cases
+                        prior = ["-m", pname, f0, "--merge", "percent_1", "number_1", "-f", "attrs", "--max-strings-literals", "1"] + \
                             (["-i", case["format"]] if case["format"] != "json" else [])
                 elif case.get("prior_failed_parse"):
                     # the same Cli object was used before for a command that failed after its input had been loaded
